@@ -37,6 +37,8 @@ type Harness struct {
 	Name    string
 	Filter  func(kind OpKind, label string) bool
 	Horizon time.Duration
+	// DeviationCost: see Sched.DeviationCost.
+	DeviationCost bool
 	// Body builds the fixture (unscheduled), registers threads with x.Go, calls x.Run(), then checks
 	// the oracle (x.Fail) and sets x.Outcome. It must leave no goroutine blocked when it returns
 	// (call x.S.Drain() or x.S.Abort() and close the fixture).
@@ -73,6 +75,7 @@ func RunOnce(t *testing.T, h *Harness, prefix []int) (res *Result) {
 	synctest.Test(t, func(t *testing.T) {
 		s := NewSched(prefix)
 		s.Filter = h.Filter
+		s.DeviationCost = h.DeviationCost
 		if h.Horizon > 0 {
 			s.Horizon = h.Horizon
 		}
